@@ -77,10 +77,26 @@ def configs(tier):
                 for lk in ("int", "float", "ndarray"):
                     add(op="rmul", lhs=lk, dta=dta, sa=sa, ua=ua)
                     add(op="rdiv", lhs=lk, dta=dta, sa=sa, ua=ua)
+    # 4. histories: the result of an operation must not depend on operations performed before it on OTHER
+    #    Arrays (hidden state such as caches keyed too coarsely): every ordered pair from a small alphabet
+    alphabet = [dict(op="pow", k=2), dict(op="pow", k=3), dict(op="pow", k=-1), dict(op="pow", k=0.5), dict(op="neg"),
+                dict(op="mul", rhs="Array", ub="cm", dtb="float64", sb=(2,)), dict(op="div", rhs="Array", ub="s", dtb="float64", sb=(2,)),
+                dict(op="add", rhs="Array", ub="m", dtb="float64", sb=(2,)), dict(op="mul", rhs="float", ub="dimensionless", dtb="float64", sb=()),
+                dict(op="rdiv", lhs="float"), dict(op="rmul", lhs="int")]
+    for first in alphabet:
+        for second in alphabet:
+            for ua in (("cm",) if tier == "quick" else ("cm", "g")):
+                if second.get("op") == "add" and ua != "cm":
+                    continue
+                add(pre=[dict(first, dta="float64", sa=(2,), ua=ua)], dta="float64", sa=(2,), ua=ua, **second)
     for c in out:
         for k in ("sa", "sb"):
             if k in c:
                 c[k] = list(c[k])
+        for q in c.get("pre", []):
+            for k in ("sa", "sb"):
+                if k in q:
+                    q[k] = list(q[k])
     return out
 
 
@@ -101,10 +117,12 @@ def body(m, cfg):
     import osyris
     from osyris import Array
     from pint.errors import DimensionalityError
+    for i, q in enumerate(cfg.get("pre", [])):
+        _history_op(m, q, i)
     op = cfg["op"]
     dta = cfg["dta"]
     sa = tuple(cfg["sa"])
-    tag = f"{op}:{C.DT_SHORT[dta]}"
+    tag = f"{op}:{C.DT_SHORT[dta]}" + (":after-" + "-".join(str(q["op"]) + str(q.get("k", "")) for q in cfg["pre"]) if cfg.get("pre") else "")
     a = Array(m.array("a", sa, dta), unit=cfg["ua"])
     fa, da = C.fd(cfg["ua"])
     av = m.vals(a._array)
@@ -213,6 +231,31 @@ def body(m, cfg):
         if isinstance(r, Array):
             _check_result(m, r, ex, dim, tag, tol=C.tol_for(cfg["ua"]))
     m.require(C.unchanged(m, a, snap_a), "operand unchanged", key=f"operands-changed:{tag}")
+
+
+def _history_op(m, q, i):
+    """An earlier operation on other Arrays (inputs named h<i>...); its result is not examined."""
+    from osyris import Array
+    x = Array(m.array(f"h{i}a", tuple(q["sa"]), q["dta"]), unit=q["ua"])
+    for t in m.vals(x._array):
+        m.assume(m.gt(t, 0))
+    op = q["op"]
+    if op == "pow":
+        x ** q["k"]
+    elif op == "neg":
+        -x
+    elif op in BIN:
+        if q["rhs"] == "Array":
+            y = Array(m.array(f"h{i}b", tuple(q["sb"]), q["dtb"]), unit=q["ub"])
+            for t in m.vals(y._array):
+                m.assume(m.gt(t, 0))
+        else:
+            y = m.real(f"h{i}b_0", lo=1, hi=2)
+        BIN[op](x, y)
+    elif op == "rdiv":
+        2.5 / x
+    elif op == "rmul":
+        3 * x
 
 
 def _fd_result(m, r, dim, tag):
